@@ -16,17 +16,41 @@ Lemma kill_group_true : kill_group = true.
 Proof. reflexivity. Qed.
 Lemma waits_sum : d1 + d2 = 1030.
 Proof. reflexivity. Qed.
-Lemma start_in_group : in_group start_proc = true.
+(* the timeout branch does not receive from ch again after KillProcess, and runCommand does not close ch *)
+Lemma gen_no_drain : drains = false.
 Proof. reflexivity. Qed.
+Lemma gen_no_close : closes = false.
+Proof. reflexivity. Qed.
+Lemma after_kill_ret : forall t k, after_kill t k = PcRet t ErrDeadline.
+Proof. intros. unfold after_kill. rewrite gen_no_drain. reflexivity. Qed.
+
+(* ExecCommand, run on the regenerated statement list, for EVERY configuration of the executor and
+   of the action (namespace policy, builtin or external sandbox, sandboxed or not): the command
+   that is returned - the one cmd.Start() starts - has a SysProcAttr, with Setpgid, and no nil
+   SysProcAttr was dereferenced on the way *)
+Lemma exec_command_ok : forall m,
+  group_set (exec_command m) = true /\ crashed (exec_command m) = false
+  /\ returned (exec_command m) = true /\ attr_set (exec_command m) = true.
+Proof. intros [[] [] []]; vm_compute; repeat split. Qed.
+
+Lemma start_in_group : forall m, in_group (start_proc m) = true.
+Proof. intros m. unfold start_proc. cbn [in_group]. apply exec_command_ok. Qed.
+
+Lemma start_proc_eq : forall m, start_proc m = mkProc true true false true false false.
+Proof. intros m. unfold start_proc. destruct (exec_command_ok m) as (H & _). rewrite H. reflexivity. Qed.
+
+Lemma start_enabled : forall m, returned (exec_command m) && negb (crashed (exec_command m)) = true.
+Proof. intros m. destruct (exec_command_ok m) as (_ & H1 & H2 & _). rewrite H1, H2. reflexivity. Qed.
 
 (* from here on the constants are symbols: the proofs use only the lemmas above *)
-Local Opaque d1 d2 sig1 sig2 kill_group.
+Local Opaque d1 d2 sig1 sig2 kill_group drains closes after_kill exec_command start_proc.
 
 (* ---- per-process predicates ---- *)
 Definition Pg (p : proc) : Prop := in_group p = true -> alive p = true -> got_kill p = true.
 Definition Pq (p : proc) : Prop := alive p = true -> holds_pipe p = false.
 Definition Ph (p : proc) : Prop := holds_pipe p = true.
 Definition Pd (p : proc) : Prop := alive p = false.
+Definition Pin (p : proc) : Prop := in_group p = true.
 
 Definition main_dead (l : list proc) : Prop := match l with [] => True | m :: _ => alive m = false end.
 
@@ -168,6 +192,8 @@ Section Protocol.
   Hypothesis os_wait_done_sound : forall l, os_wait_done os l = true -> Quiet l.
   (* OS-3: sending a signal closes nobody's descriptors. *)
   Hypothesis os_kill_keeps_pipes : forall g sg l, Forall Ph l -> Forall Ph (os_kill os g sg l).
+  (* OS-4: sending a signal moves nobody out of the process group. *)
+  Hypothesis os_kill_keeps_group : forall g sg l, Forall Pin l -> Forall Pin (os_kill os g sg l).
 
   Variables T lat : N.
 
@@ -177,6 +203,7 @@ Section Protocol.
     | PcSelect => now st <= T + lat
     | PcWait1 a => T <= a /\ a <= T + lat /\ a <= now st /\ now st <= a + d1 + lat
     | PcWait2 a _ => T <= a /\ a <= T + d1 + 2 * lat /\ a <= now st /\ now st <= a + d2 + lat /\ G (procs st)
+    | PcDrain _ _ => False   (* the timeout branch does not wait for the channel (gen_no_drain) *)
     | PcRet t e => t <= now st /\
         match e with
         | ErrDeadline => T <= t /\ t <= T + d1 + d2 + 3 * lat /\ G (procs st)
@@ -216,11 +243,12 @@ Section Protocol.
     env_rel c (procs st) (procs st') -> Inv st'.
   Proof.
     intros c st st' HI Hn Hc R. unfold Inv in *. rewrite Hc, Hn.
-    destruct (ctl st) as [| |a|a k|t e].
+    destruct (ctl st) as [| |a|a k|a k|t e].
     - destruct HI as [_ HE]. apply env_rel_nonempty in R. contradiction.
     - exact HI.
     - exact HI.
     - destruct HI as (?&?&?&?&HG). splits; try assumption. eapply env_G; eassumption.
+    - exact HI.
     - destruct HI as (Ht & HI). split; [assumption|]. destruct e.
       + destruct HI as [? HQ]. split; [assumption|]. eapply env_Quiet; eassumption.
       + destruct HI as [_ HE]. apply env_rel_nonempty in R. contradiction.
@@ -233,7 +261,7 @@ Section Protocol.
     destruct e; try (destruct HE as (Hn & Hc & R); eapply Inv_env; eassumption).
     - (* Tick *)
       destruct HE as (Hn & Hc & Hp). cbn in H. unfold Inv in *. rewrite Hc, Hn, Hp.
-      destruct (ctl st) as [| |a|a k|t e]; cbv zeta in H; cbn match in H;
+      destruct (ctl st) as [| |a|a k|a k|t e]; try contradiction; cbv zeta in H; cbn match in H;
         try (match type of H with (if ?c then _ else _) = _ => destruct c eqn:Eb; [|discriminate] end;
              apply N.leb_le in Eb).
       + destruct HI. split; [lia|assumption].
@@ -243,6 +271,7 @@ Section Protocol.
       + destruct HI as [? HI]. split; [lia|exact HI].
     - (* CStart *)
       cbn in H. unfold Inv in HI. destruct (ctl st); try discriminate. destruct HI as [Hl Hp].
+      rewrite start_enabled in H.
       destruct ok; inversion H; subst; unfold Inv; cbn [now ctl procs].
       + lia.
       + split; [lia|]. split; [lia|reflexivity].
@@ -254,16 +283,18 @@ Section Protocol.
       cbn in H. unfold Inv in HI. destruct (ctl st); try discriminate.
       destruct (T <=? now st) eqn:E; [|discriminate]. apply N.leb_le in E. inversion H; subst. unfold Inv; cbn [now ctl procs]. lia.
     - (* CRecv *)
-      cbn in H. unfold Inv in HI. destruct (ctl st) as [| |a|a k|t e]; try discriminate.
+      cbn in H. unfold Inv in HI. destruct (ctl st) as [| |a|a k|a k|t e]; try discriminate; try contradiction.
       + destruct (os_wait_done os (procs st)) eqn:E; [|discriminate]. inversion H; subst. unfold Inv; cbn [now ctl procs].
         destruct HI as (?&?&?&?). splits; try lia. apply kill2_G.
-      + destruct k; [discriminate|]. destruct (os_wait_done os (procs st)) eqn:E; [|discriminate].
+      + destruct k; [rewrite gen_no_close in H; discriminate|]. destruct (os_wait_done os (procs st)) eqn:E; [|discriminate].
+        rewrite after_kill_ret in H.
         inversion H; subst. unfold Inv; cbn [now ctl procs]. destruct HI as (?&?&?&?&?). splits; try assumption; lia.
     - (* CExpire *)
-      cbn in H. unfold Inv in HI. destruct (ctl st) as [| |a|a k|t e]; try discriminate.
+      cbn in H. unfold Inv in HI. destruct (ctl st) as [| |a|a k|a k|t e]; try discriminate; try contradiction.
       + destruct (a + d1 <=? now st) eqn:E; [|discriminate]. apply N.leb_le in E. inversion H; subst. unfold Inv; cbn [now ctl procs].
         destruct HI as (?&?&?&?). splits; try lia. apply kill2_G.
-      + destruct (a + d2 <=? now st) eqn:E; [|discriminate]. apply N.leb_le in E. inversion H; subst. unfold Inv; cbn [now ctl procs].
+      + destruct (a + d2 <=? now st) eqn:E; [|discriminate]. apply N.leb_le in E. rewrite after_kill_ret in H.
+        inversion H; subst. unfold Inv; cbn [now ctl procs].
         destruct HI as (?&?&?&?&?). splits; try assumption; lia.
   Qed.
 
@@ -287,11 +318,12 @@ Section Protocol.
   Lemma reported_by_bound : forall tr st, run os T lat init tr = Some st ->
     match ctl st with PcRet t _ => t <= bound | _ => now st <= bound end.
   Proof.
-    intros tr st H. apply reachable_inv in H. unfold Inv, bound in *. destruct (ctl st) as [| |a|a k|t e].
+    intros tr st H. apply reachable_inv in H. unfold Inv, bound in *. destruct (ctl st) as [| |a|a k|a k|t e].
     - lia.
     - lia.
     - lia.
     - lia.
+    - contradiction.
     - destruct H as [_ H]. destruct e; lia.
   Qed.
 
@@ -313,8 +345,8 @@ Section Protocol.
     \/ (exists e st', is_controller e = true /\ step os T lat st e = Some st').
   Proof.
     intros tr st H. apply reachable_inv in H. unfold Inv in H.
-    destruct (ctl st) as [| |a|a k|t e] eqn:Ec.
-    - right; right. exists (CStart true). eexists. split; [reflexivity|]. cbn. rewrite Ec. reflexivity.
+    destruct (ctl st) as [| |a|a k|a k|t e] eqn:Ec.
+    - right; right. exists (CStart true no_sandbox). eexists. split; [reflexivity|]. cbn. rewrite Ec, start_enabled. reflexivity.
     - destruct (now st + 1 <=? T + lat) eqn:E.
       + right; left. eexists. cbn. rewrite Ec, E. reflexivity.
       + right; right. exists CDeadline. eexists. split; [reflexivity|]. cbn. rewrite Ec.
@@ -327,6 +359,7 @@ Section Protocol.
       + right; left. eexists. cbn. rewrite Ec, E. reflexivity.
       + right; right. exists CExpire. eexists. split; [reflexivity|]. cbn. rewrite Ec.
         apply N.leb_gt in E. assert (E' : (a + d2 <=? now st) = true) by (apply N.leb_le; lia). rewrite E'. reflexivity.
+    - contradiction.
     - left. eauto.
   Qed.
 
@@ -364,8 +397,9 @@ Section Protocol.
       try (destruct HE as (Hn & Hc & R); split;
            [eapply env_Ph; eassumption | intros t Ht; rewrite Hc in Ht; exfalso; eapply env_Pd; [exact R|eauto]]).
     - destruct HE as (Hn & Hc & Hp). unfold Inv2. rewrite Hc, Hp. split; assumption.
-    - cbn in H. destruct (ctl st) eqn:Ec; try discriminate. destruct ok; inversion H; subst; unfold Inv2; cbn [now ctl procs].
-      + split; [repeat constructor|discriminate].
+    - cbn in H. destruct (ctl st) eqn:Ec; try discriminate. rewrite start_enabled in H.
+      destruct ok; inversion H; subst; unfold Inv2; cbn [now ctl procs].
+      + split; [rewrite start_proc_eq; repeat constructor|discriminate].
       + split; [constructor|discriminate].
     - cbn in H. destruct (ctl st) eqn:Ec; try discriminate. destruct (os_wait_done os (procs st)) eqn:E; [|discriminate].
       inversion H; subst. unfold Inv2; cbn [now ctl procs]. split; [assumption|]. intros _ _.
@@ -374,15 +408,18 @@ Section Protocol.
       rewrite Hq in Hh by reflexivity. discriminate.
     - cbn in H. destruct (ctl st) eqn:Ec; try discriminate. destruct (T <=? now st); [|discriminate].
       inversion H; subst. unfold Inv2; cbn [now ctl procs]. split; [apply os_kill_keeps_pipes; assumption|discriminate].
-    - cbn in H. destruct (ctl st) as [| |a|a k|t e] eqn:Ec; try discriminate.
+    - cbn in H. destruct (ctl st) as [| |a|a k|a k|t e] eqn:Ec; try discriminate.
       + destruct (os_wait_done os (procs st)); [|discriminate]. inversion H; subst. unfold Inv2; cbn [now ctl procs].
         split; [apply os_kill_keeps_pipes; assumption|discriminate].
-      + destruct k; [discriminate|]. destruct (os_wait_done os (procs st)); [|discriminate]. inversion H; subst.
+      + destruct k; [rewrite gen_no_close in H; discriminate|]. destruct (os_wait_done os (procs st)); [|discriminate].
+        rewrite after_kill_ret in H. inversion H; subst.
         unfold Inv2; cbn [now ctl procs]. split; [assumption|discriminate].
-    - cbn in H. destruct (ctl st) as [| |a|a k|t e] eqn:Ec; try discriminate.
+      + destruct k; [rewrite gen_no_close in H; discriminate|]. destruct (os_wait_done os (procs st)); [|discriminate].
+        inversion H; subst. unfold Inv2; cbn [now ctl procs]. split; [assumption|discriminate].
+    - cbn in H. destruct (ctl st) as [| |a|a k|a k|t e] eqn:Ec; try discriminate.
       + destruct (a + d1 <=? now st); [|discriminate]. inversion H; subst. unfold Inv2; cbn [now ctl procs].
         split; [apply os_kill_keeps_pipes; assumption|discriminate].
-      + destruct (a + d2 <=? now st); [|discriminate]. inversion H; subst. unfold Inv2; cbn [now ctl procs].
+      + destruct (a + d2 <=? now st); [|discriminate]. rewrite after_kill_ret in H. inversion H; subst. unfold Inv2; cbn [now ctl procs].
         split; [assumption|discriminate].
   Qed.
 
@@ -401,6 +438,147 @@ Section Protocol.
     intros tr st t Hd H Hc p Hin. assert (HI : Inv2 init) by (split; [constructor|discriminate]).
     pose proof (run_inv2 _ _ _ HI Hd H) as [_ Hall]. specialize (Hall t Hc). rewrite Forall_forall in Hall.
     apply Hall. assumption.
+  Qed.
+  (* ---- actions none of whose processes leaves the process group: EVERY process is stopped ----
+     (this is where the group set up by ExecCommand for every configuration is used) *)
+  Lemma step_all_in_group : forall st e st', Forall Pin (procs st) -> step os T lat st e = Some st' ->
+    match e with EEscape _ => False | _ => True end -> Forall Pin (procs st').
+  Proof.
+    intros st e st' HP H Hne. destruct e; try contradiction; cbn in H.
+    - cbv zeta in H. match type of H with (if ?c then _ else _) = _ => destruct c; [|discriminate] end.
+      inversion H; subst. exact HP.
+    - destruct (nth_error (procs st) p) as [x|] eqn:E; [|discriminate]. destruct (runs x); [|discriminate].
+      inversion H; subst. cbn [procs]. apply Forall_app. split; [exact HP|]. constructor; [|constructor].
+      rewrite Forall_forall in HP. apply nth_error_In in E. apply HP in E. exact E.
+    - unfold with_procs in H. destruct (upd p f_exit (procs st)) eqn:E; [|discriminate]. inversion H; subst. cbn [procs].
+      eapply upd_Forall; [|exact E|exact HP]. intros x y Hx Hf. fcases Hf. exact Hx.
+    - unfold with_procs in H. destruct (upd p (f_setign b) (procs st)) eqn:E; [|discriminate]. inversion H; subst. cbn [procs].
+      eapply upd_Forall; [|exact E|exact HP]. intros x y Hx Hf. fcases Hf. exact Hx.
+    - unfold with_procs in H. destruct (upd p f_close (procs st)) eqn:E; [|discriminate]. inversion H; subst. cbn [procs].
+      eapply upd_Forall; [|exact E|exact HP]. intros x y Hx Hf. fcases Hf. exact Hx.
+    - destruct (ctl st); try discriminate. rewrite start_enabled in H. destruct ok; inversion H; subst; cbn [procs].
+      + constructor; [apply start_in_group|constructor].
+      + constructor.
+    - destruct (ctl st); try discriminate. destruct (os_wait_done os (procs st)); [|discriminate]. inversion H; subst. exact HP.
+    - destruct (ctl st); try discriminate. destruct (T <=? now st); [|discriminate]. inversion H; subst. cbn [procs].
+      apply os_kill_keeps_group. exact HP.
+    - destruct (ctl st) as [| |a|a k|a k|t e]; try discriminate.
+      + destruct (os_wait_done os (procs st)); [|discriminate]. inversion H; subst. cbn [procs]. apply os_kill_keeps_group. exact HP.
+      + destruct k; [destruct closes; [|discriminate]|destruct (os_wait_done os (procs st)); [|discriminate]]; inversion H; subst; exact HP.
+      + destruct k; [destruct closes; [|discriminate]|destruct (os_wait_done os (procs st)); [|discriminate]]; inversion H; subst; exact HP.
+    - destruct (ctl st) as [| |a|a k|a k|t e]; try discriminate.
+      + destruct (a + d1 <=? now st); [|discriminate]. inversion H; subst. cbn [procs]. apply os_kill_keeps_group. exact HP.
+      + destruct (a + d2 <=? now st); [|discriminate]. inversion H; subst. exact HP.
+  Qed.
+
+  Lemma run_all_in_group : forall tr st st', Forall Pin (procs st) -> escapes tr = false ->
+    run os T lat st tr = Some st' -> Forall Pin (procs st').
+  Proof.
+    induction tr as [|e r IH]; intros st st' HP He H; cbn in H.
+    - inversion H; subst. exact HP.
+    - destruct (step os T lat st e) as [st1|] eqn:E; [|discriminate]. unfold escapes in He. cbn in He.
+      apply Bool.orb_false_iff in He. destruct He as [He Hr]. eapply IH; [|exact Hr|exact H].
+      eapply step_all_in_group; [exact HP|exact E|]. destruct e; try exact I. discriminate.
+  Qed.
+
+  (* whatever the sandbox configuration: when no process ever left the group, a reported timeout
+     means every process the action started - not just those that happen to be in the group - is
+     dead or was sent SIGKILL *)
+  Lemma timeout_all_stopped : forall tr st t, escapes tr = false -> run os T lat init tr = Some st ->
+    ctl st = PcRet t ErrDeadline -> forall p, In p (procs st) -> alive p = false \/ got_kill p = true.
+  Proof.
+    intros tr st t He H Hc p Hin. eapply timeout_group_stopped; try eassumption.
+    assert (HP : Forall Pin (procs st)) by (eapply (run_all_in_group tr init st); [cbn; constructor|exact He|exact H]).
+    rewrite Forall_forall in HP. apply HP. exact Hin.
+  Qed.
+
+  (* ---- the report does not wait for whoever holds the output pipes ----
+     From every reachable state the controller reaches its return through clock events alone
+     (Tick, cmd.Start returning, ctx.Done(), time.After): no receive from ch, no step of any
+     process.  So no process - in particular none that left the group and kept the pipes, which
+     the group kill cannot reach and which keeps cmd.Wait() from returning for ever - can delay
+     the report beyond the bound. *)
+  Definition done_by_timers (st : state) : Prop :=
+    exists tr' st' t e, forallb timer_only tr' = true /\ run os T lat st tr' = Some st' /\ ctl st' = PcRet t e.
+
+  Lemma run_app : forall a b st, run os T lat st (a ++ b) =
+    match run os T lat st a with Some s1 => run os T lat s1 b | None => None end.
+  Proof.
+    induction a as [|e r IH]; intros b st; cbn; [reflexivity|].
+    destruct (step os T lat st e); [apply IH|reflexivity].
+  Qed.
+
+  Lemma extend_timers : forall st tr1 st1, forallb timer_only tr1 = true -> run os T lat st tr1 = Some st1 ->
+    done_by_timers st1 -> done_by_timers st.
+  Proof.
+    intros st tr1 st1 Ht H (tr' & st' & t & e & Ht' & H' & Hc). exists (tr1 ++ tr'), st', t, e.
+    split; [rewrite forallb_app, Ht, Ht'; reflexivity|]. split; [|exact Hc]. rewrite run_app, H. exact H'.
+  Qed.
+
+  Lemma leb_true : forall a b, a <= b -> (a <=? b) = true.
+  Proof. intros. apply N.leb_le. assumption. Qed.
+
+  Lemma finish_wait2 : forall st a k, Inv st -> ctl st = PcWait2 a k -> done_by_timers st.
+  Proof.
+    intros [n c l] a k HI Hc. cbn in Hc. subst c. unfold Inv in HI. cbn [now ctl procs] in HI. destruct HI as (?&?&?&?&?).
+    exists [Tick (a + d2 - n); CExpire]. eexists. exists (n + (a + d2 - n)), ErrDeadline. split; [reflexivity|].
+    cbn [run step now ctl procs]. cbv zeta. rewrite (leb_true (n + (a + d2 - n)) (a + d2 + lat)) by lia.
+    cbn [now ctl procs]. rewrite (leb_true (a + d2) (n + (a + d2 - n))) by lia. rewrite after_kill_ret. split; reflexivity.
+  Qed.
+
+  Lemma finish_wait1 : forall st a, Inv st -> ctl st = PcWait1 a -> done_by_timers st.
+  Proof.
+    intros [n c l] a HI Hc. cbn in Hc. subst c. pose proof HI as HI0. unfold Inv in HI. cbn [now ctl procs] in HI. destruct HI as (?&?&?&?).
+    assert (R : run os T lat (mkState n (PcWait1 a) l) [Tick (a + d1 - n); CExpire]
+                = Some (mkState (n + (a + d1 - n)) (PcWait2 (n + (a + d1 - n)) false) (os_kill os kill_group sig2 l))).
+    { cbn [run step now ctl procs]. cbv zeta. rewrite (leb_true (n + (a + d1 - n)) (a + d1 + lat)) by lia.
+      cbn [now ctl procs]. rewrite (leb_true (a + d1) (n + (a + d1 - n))) by lia. reflexivity. }
+    eapply extend_timers; [|exact R|]; [reflexivity|].
+    eapply finish_wait2; [eapply run_inv; [exact HI0|exact R]|reflexivity].
+  Qed.
+
+  Lemma finish_select : forall st, Inv st -> ctl st = PcSelect -> done_by_timers st.
+  Proof.
+    intros [n c l] HI Hc. cbn in Hc. subst c. pose proof HI as HI0. unfold Inv in HI. cbn [now ctl procs] in HI.
+    assert (R : run os T lat (mkState n PcSelect l) [Tick (T - n); CDeadline]
+                = Some (mkState (n + (T - n)) (PcWait1 (n + (T - n))) (os_kill os kill_group sig1 l))).
+    { cbn [run step now ctl procs]. cbv zeta. rewrite (leb_true (n + (T - n)) (T + lat)) by lia.
+      cbn [now ctl procs]. rewrite (leb_true T (n + (T - n))) by lia. reflexivity. }
+    eapply extend_timers; [|exact R|]; [reflexivity|].
+    eapply finish_wait1; [eapply run_inv; [exact HI0|exact R]|reflexivity].
+  Qed.
+
+  Lemma finish_any : forall st, Inv st -> done_by_timers st.
+  Proof.
+    intros st HI. destruct (ctl st) as [| |a|a k|a k|t e] eqn:Ec.
+    - destruct st as [n c l]. cbn in Ec. subst c.
+      assert (R : run os T lat (mkState n PcInit l) [CStart true no_sandbox] = Some (mkState n PcSelect [start_proc no_sandbox])).
+      { cbn [run step now ctl procs]. rewrite start_enabled. reflexivity. }
+      eapply extend_timers; [|exact R|]; [reflexivity|].
+      eapply finish_select; [eapply run_inv; [exact HI|exact R]|reflexivity].
+    - eapply finish_select; eassumption.
+    - eapply finish_wait1; eassumption.
+    - eapply finish_wait2; eassumption.
+    - unfold Inv in HI. rewrite Ec in HI. contradiction.
+    - exists [], st, t, e. split; [reflexivity|]. split; [reflexivity|exact Ec].
+  Qed.
+
+  Lemma report_needs_no_eof : forall tr st, run os T lat init tr = Some st ->
+    exists tr' st' t e, forallb timer_only tr' = true /\ run os T lat st tr' = Some st'
+                        /\ ctl st' = PcRet t e /\ t <= bound.
+  Proof.
+    intros tr st H. destruct (finish_any st (reachable_inv _ _ H)) as (tr' & st' & t & e & Ht & H' & Hc).
+    exists tr', st', t, e. split; [exact Ht|]. split; [exact H'|]. split; [exact Hc|].
+    assert (Hr : run os T lat init (tr ++ tr') = Some st') by (rewrite run_app, H; exact H').
+    pose proof (reported_by_bound _ _ Hr) as Hb. rewrite Hc in Hb. exact Hb.
+  Qed.
+
+  (* and while any live process - escaped from the group or not - has the pipes open, cmd.Wait()
+     has not returned: nothing is ever sent on ch *)
+  Lemma pipe_holder_blocks_wait : forall l p, In p l -> alive p = true -> holds_pipe p = true -> os_wait_done os l = false.
+  Proof.
+    intros l p Hin Ha Hh. destruct (os_wait_done os l) eqn:E; [|reflexivity]. apply os_wait_done_sound in E.
+    destruct E as [_ Hq]. rewrite Forall_forall in Hq. specialize (Hq p Hin Ha). congruence.
   Qed.
 End Protocol.
 
@@ -430,8 +608,17 @@ Proof.
     unfold Ph in *. destruct (alive m); cbn; assumption.
 Qed.
 
+Lemma linux_kill_keeps_group : forall g sg l, Forall Pin l -> Forall Pin (os_kill linux g sg l).
+Proof.
+  intros g sg l H. cbn. unfold linux_kill. destruct g.
+  - apply Forall_forall. intros q Hq. apply in_map_iff in Hq. destruct Hq as (p & Hp & Hin). subst q.
+    rewrite Forall_forall in H. specialize (H p Hin). unfold Pin in *. destruct (in_group p && alive p); cbn; assumption.
+  - destruct l as [|m r]; [constructor|]. inversion H; subst. constructor; [|assumption].
+    unfold Pin in *. destruct (alive m); cbn; assumption.
+Qed.
+
 (* ---- the witness against the full statement ---- *)
-Definition witness_trace : list event := [CStart true; EFork 0; EClosePipe 1; Tick 5; EExit 0; CChan; Tick 100000].
+Definition witness_trace : list event := [CStart true no_sandbox; EFork 0; EClosePipe 1; Tick 5; EExit 0; CChan; Tick 100000].
 
 Lemma witness_runs :
   exists st, run linux 1000 0 init witness_trace = Some st /\ ctl st = PcRet 5 ErrNone
